@@ -1,7 +1,7 @@
 /-
 REGENERATED on every run by harness/props/c20.py (pre_build) from
 pybrops/breed/arch/RecurrentSelectionBreedingProgram.py — do not edit.
-translation FAILED (Untranslatable: statement not understood: ngen = ngen or self._t_max): empty schedule, not well formed
+translation: ok
 -/
 import PybropsModel.Model.Program
 
@@ -9,12 +9,45 @@ namespace C20Schedule
 open Program
 
 def evolve : Schedule where
-  evolvePre := []
-  evolveRep := []
+  evolvePre := [
+    .initIfNeeded
+  ]
+  evolveRep := [
+    .incRep,
+    .skip,
+    .callReset,
+    .newMisc,
+    .call .evaluate [.genome, .geno, .pheno, .bval, .gmod, .misc] [.genome, .geno, .pheno, .bval, .gmod],
+    .log .initialize true [.genome, .geno, .pheno, .bval, .gmod, .misc],
+    .tick,
+    .callAdvance
+  ]
   evolvePost := []
-  reset := []
+  reset := [
+    .copyStart .genome 0,
+    .copyStart .geno 1,
+    .copyStart .pheno 2,
+    .copyStart .bval 3,
+    .copyStart .gmod 4,
+    .resetT
+  ]
   advancePre := []
-  advanceGen := []
+  advanceGen := [
+    .skip,
+    .newMisc,
+    .call .pselect [.genome, .geno, .pheno, .bval, .gmod, .misc] [.mcfg, .genome, .geno, .pheno, .bval, .gmod],
+    .log .pselect false [.mcfg, .genome, .geno, .pheno, .bval, .gmod, .misc],
+    .newMisc,
+    .call .mate [.mcfg, .genome, .geno, .pheno, .bval, .gmod, .misc] [.genome, .geno, .pheno, .bval, .gmod],
+    .log .mate false [.mcfg, .genome, .geno, .pheno, .bval, .gmod, .misc],
+    .newMisc,
+    .call .evaluate [.genome, .geno, .pheno, .bval, .gmod, .misc] [.genome, .geno, .pheno, .bval, .gmod],
+    .log .evaluate false [.genome, .geno, .pheno, .bval, .gmod, .misc],
+    .newMisc,
+    .call .sselect [.genome, .geno, .pheno, .bval, .gmod, .misc] [.genome, .geno, .pheno, .bval, .gmod],
+    .log .sselect false [.genome, .geno, .pheno, .bval, .gmod, .misc],
+    .tick
+  ]
   advancePost := []
 
 end C20Schedule
